@@ -231,7 +231,22 @@ func (fr *frame) havocCall(sig *types.Signature, args []Val, argTypes []types.Ty
 		if i >= len(argTypes) {
 			break
 		}
-		pt, ok := types.Unalias(argTypes[i]).Underlying().(*types.Pointer)
+		at := argTypes[i]
+		// a pointer boxed into an interface argument (e.g. a proto.Message) is written through as well
+		if _, isIface := types.Unalias(at).Underlying().(*types.Interface); isIface && i < len(fr.curCallArgs)+1 {
+			var sv ssa.Value
+			off := len(args) - len(fr.curCallArgs)
+			if i-off >= 0 && i-off < len(fr.curCallArgs) {
+				sv = fr.curCallArgs[i-off]
+			}
+			if mi, ok := sv.(*ssa.MakeInterface); ok {
+				if _, isPtr := types.Unalias(mi.X.Type()).Underlying().(*types.Pointer); isPtr {
+					at = mi.X.Type()
+					a = fr.operand(mi.X, fr.curEnv)
+				}
+			}
+		}
+		pt, ok := types.Unalias(at).Underlying().(*types.Pointer)
 		if !ok {
 			continue
 		}
@@ -239,17 +254,13 @@ func (fr *frame) havocCall(sig *types.Signature, args []Val, argTypes []types.Ty
 			vc.writeLoc(st, a.ip, vc.fresh("hv", reg.sortOf(a.ip.targetType())))
 			continue
 		}
-		if si := reg.structInfoOf(pt.Elem()); si != nil && (inRepo(pkgOfType(pt.Elem())) || true) {
-			// only havoc objects of external transparent types and local cells; in-repo component
-			// structs passed to externals (loggers etc.) are not modified by them.
-			if !inRepo(pkgOfType(pt.Elem())) {
-				for j, f := range si.fields {
-					vc.writeField(st, a.t, si, j, vc.fresh("hv_"+f.name, f.sort))
-				}
+		if si := reg.structInfoOf(pt.Elem()); si != nil {
+			for j, f := range si.fields {
+				vc.writeField(st, a.t, si, j, vc.fresh("hv_"+f.name, f.sort))
 			}
-		} else if si == nil {
+		} else {
 			s := reg.sortOf(pt.Elem())
-			if _, isStruct := types.Unalias(pt.Elem()).Underlying().(*types.Struct); !isStruct {
+			if _, isArr := types.Unalias(pt.Elem()).Underlying().(*types.Array); !isArr {
 				ip := &IPtr{root: rootCell, heap: heapKeyCell(s), vsort: s, ref: a.t, rootT: pt.Elem()}
 				vc.writeLoc(st, ip, vc.fresh("hv", s))
 			}
@@ -288,6 +299,9 @@ func (fr *frame) applyContract(ct *Contract, key string, sig *types.Signature, a
 	ct.used = true
 	if ct.Trusted {
 		vc.usedSpecs[key+" ["+ct.Src+"]"] = true
+	}
+	if ct.Opaque {
+		vc.usedSpecs[key+" (in-repo function with an ASSUMED contract: its body is outside the verifier's reach) ["+ct.Src+"]"] = true
 	}
 	te := vc.newTEnv(st, st.clone(), cpkg)
 	old := te.old
